@@ -23,6 +23,13 @@ func Canon(v reflect.Value) string {
 // BadHeader reports whether the canonical text mentions an ill-formed header.
 func BadHeader(s string) bool { return strings.Contains(s, "!BADHEADER") }
 
+// rvalue mirrors the layout of reflect.Value (typ, ptr, flag).
+type rvalue struct {
+	typ  unsafe.Pointer
+	ptr  unsafe.Pointer
+	flag uintptr
+}
+
 type strHeader struct {
 	data unsafe.Pointer
 	len  int
@@ -57,8 +64,8 @@ func canon(sb *strings.Builder, v reflect.Value, depth int) {
 			fmt.Fprintf(sb, "f%016x", math.Float64bits(f))
 		}
 	case reflect.String:
-		if v.CanAddr() {
-			h := (*strHeader)(unsafe.Pointer(v.UnsafeAddr()))
+		// a string is never stored directly in a reflect.Value: the value's data word points at the header
+		if h := (*strHeader)((*rvalue)(unsafe.Pointer(&v)).ptr); h != nil {
 			if h.len < 0 || (h.data == nil && h.len != 0) {
 				fmt.Fprintf(sb, "!BADHEADER(string base=nil len=%d)", h.len)
 				return
@@ -80,8 +87,7 @@ func canon(sb *strings.Builder, v reflect.Value, depth int) {
 		fmt.Fprintf(sb, "(%s)", v.Elem().Type().String())
 		canon(sb, v.Elem(), depth+1)
 	case reflect.Slice:
-		if v.CanAddr() {
-			h := (*sliceHeader)(unsafe.Pointer(v.UnsafeAddr()))
+		if h := (*sliceHeader)((*rvalue)(unsafe.Pointer(&v)).ptr); h != nil {
 			if h.len < 0 || h.cap < h.len || (h.data == nil && (h.len != 0 || h.cap != 0)) {
 				fmt.Fprintf(sb, "!BADHEADER(slice base-nil=%v len=%d cap=%d)", h.data == nil, h.len, h.cap)
 				return
